@@ -19,6 +19,9 @@ CLAIMED = {
     "C04": ("exploration", "DESIGN.md 4 (C04)", "seeded deterministic simulation: LZH decompressor vs an independent LZHUF reference decoder/encoder under seeded drain schedules (GetData boundary sizes mixed with GetInternalBuffer), damaged and over-capacity inputs, and VOL extraction",
             "Inputs: reference-encoded token lists covering every match length 3..60 and distance class, tokenised payloads, random bytes up to 100 KiB, constant bytes, truncated and bit-flipped streams, and streams needing more than 65221 symbol updates. The consumer is a seeded drain schedule; output must equal the reference decoder byte for byte for every schedule, a capacity error must be raised exactly where the reference stops, and extraction of the same stream as an LZH member of a reference-encoded VOL must write the same bytes. Sampling evidence, not proof.",
             "Trusts sim/models/reflzh.h (classical son/prnt/freq LZHUF form written from the format description; its encoder/decoder pair is self-checked in every payload run). Output for the 0-byte input is not asserted."),
+    "C05": ("fault_enumeration", "DESIGN.md 4 (C05), 2.5", "deterministic simulation with exhaustive structure-guided storage-damage enumeration per seeded world: every prefix, field x boundary-value grid, multi-field templates, flips, splices; long-lived archive object vs fresh-object-per-call model; extent oracle on the damaged bytes; sanitizers and I/O-step watchdog",
+            "Each run builds one small valid VOL, CLM or WAV with the independent encoders and then executes ALL its damage variants (every truncation point, every integer field x ~50 boundary values, coordinated multi-field corruptions such as index length + header length raised together or a name terminator overwritten, bit flips, region exchanges). Every damaged archive is opened once and driven through a seeded call sequence; each call is repeated on a freshly opened object and outcome class and value must agree (usable-after-failure); delivered member streams must equal the file bytes at the recorded extent or be refused; crashes, sanitizer reports, non-std exceptions and calls exceeding the I/O step budget are violations. Exhaustive over the enumerated damage of each sampled world, sampling over worlds and call sequences.",
+            "Byte strings reached are structure-guided damage of valid files, not the full 2^(8n) space and not coverage-guided mutation; ASan/UBSan/_GLIBCXX_ASSERTIONS are the memory/arithmetic oracle; finite memory is simulated by a 32 MiB allocation cap (bad_alloc counts as an ordinary error)."),
     "C12": ("exploration", "DESIGN.md 4 (C12), 2.3", "seeded deterministic simulation: reader actors vs byte-vector/cursor reference model, boundary/wrap argument classes, transparent I/O faults",
             "Seeded search over operation histories (reads, partial reads, peeks, seeks, typed helpers) on memory readers, memory slices, file slices and nested slices; every step is compared with a reference cursor model, destination buffers are exactly sized heap blocks under ASan, refused operations are checked for atomicity on the following steps. Sampling evidence, not proof.",
             "Trusts the reference model in sim/scen/stream_actors.cpp and ASan/UBSan/_GLIBCXX_ASSERTIONS for memory errors; file-backed actors run over real libstdc++ filebuf on tmpfs with injected short reads and EINTR."),
